@@ -30,17 +30,24 @@ SHARD = 40
 PRELUDE = ('Notation SC := Build_sch. Notation MK := Build_mask. Notation PG := Build_prog. Notation AE := Build_awg_entry.\n'
            'Notation AS := Build_awg_st. Notation DS := Build_dac_st. Notation RG := Build_reg. Notation OB := Build_obs.\n')
 RULE = ('histories of set_channel / set_measurement / rm_channel / register_program (update, explicit measurements, '
-        'non-callable callback) / remove_program / clear_programs / arm_program / run_program on a real HardwareSetup '
-        'with 2-3 DummyAWGs (1-4 channels, 0-3 markers) and 2 DummyDACs; wirings with several outputs per name and '
-        'several names per output/mask; programs are real Loops (leaf or two-leaf sequence with repetition) over '
-        'constant waveforms.  Streams: scenario histories (names spread over all devices, program operations only), guard-respecting histories (no re-wiring of used names, updates keep the device '
+        'non-callable callback) / remove_program / clear_programs / arm_program / run_program / update_parameters on a '
+        'real HardwareSetup with 2-3 DummyAWGs (1-4 channels, 0-3 markers) and 1-2 DummyDACs; channel ids str, int '
+        '(0 included) or mixed; wirings with several outputs per name and several names per output/mask, two mask '
+        'objects for one (dac, mask); programs are real Loops (leaf or two-leaf sequence with repetition) over '
+        'constant waveforms.  Every device method is wrapped: the state each device was told must equal its private '
+        'attributes and public properties after every call.  Streams: all histories of length <= 2 (quick; + 20% of 3) / '
+        '<= 4 complete (thorough) over a 10-op alphabet on 2 AWGs x 1 DAC, scenario histories (names spread over all devices, program operations only), guard-respecting histories (no re-wiring of used names, updates keep the device '
         'set), free histories (everything), malformed arguments, targeted defect shapes; thorough adds all histories of '
         'length <= 3 over a fixed alphabet after a fixed wiring.  Non-trivial = at least one registration returned '
         'normally and one later operation touched devices; distinct = canonical JSON of the case.')
 TRUSTED = [
     'Coq 8.16.1 kernel + vm_compute (no native_compute)',
     'harness: generators, observation of the dummy devices through their attributes (_programs, _armed, '
-    '_measurement_windows, armed_program), HardwareSetup.registered_channels(), ._measurement_map, .registered_programs',
+    '_measurement_windows, armed_program) cross-checked after every call against what the devices were told through '
+    'the AWG/DAC interface and against AWG.programs / known_awgs / known_dacs; HardwareSetup.registered_channels(), '
+    '._measurement_map, .registered_programs; DummyAWG.set_volatile_parameters replaced by a recorder',
+    'classification of specification failures (known finding vs VIOLATION) uses the Python mirror of Spec.track_awg / '
+    'track_dac in c18_spec.py',
     'iteration order of Python sets / dicts inside register_program is not modelled: the channel order, measurement '
     'order and AWG upload order of each call are inputs of the model step; the harness picks an order that explains the '
     'recorded outcome (winner of several names wired to one output / mask), upload order is observed by wrapping upload',
@@ -1096,20 +1103,24 @@ def search_failing(ctx, broken):
 
 
 MANIFEST = {
-    'level_text': 'Proof (Coq, unbounded histories incl. raising calls) of the routing invariant for an executable model of '
-                  'HardwareSetup + DummyAWG/DummyDAC: under guard_C18_rewire (no re-wiring of a name used by a '
-                  'registered program) every AWG holds exactly the registered programs that use it, with the last '
-                  'registered program object and every channel id / voltage transformation at the wired output; every '
-                  'DAC holds exactly the programs with a measurement wired to it, exactly the wired masks, each with the '
-                  'program\'s own windows; participation records are exact; arm arms participating AWGs and DACs and '
-                  'disarms the other wired AWGs; removed / cleared programs are gone everywhere; devices are armed only '
-                  'with programs they hold.  The unguarded invariant is refuted by a 3-call witness (known finding '
-                  'C18-rewire-stale).  Model tied to the code by a step-by-step correspondence check on the real '
-                  'objects after every call.',
-    'level_note': 'Trusted: Coq kernel, harness, DummyAWG/DummyDAC as stand-ins for real drivers, set/dict iteration '
-                  'order inside register_program is an input of the model chosen to explain the observed outcome, '
-                  'Loop.get_measurement_windows as the program\'s own windows.  Two defects of the unchanged code were '
-                  'repaired (fix commits 825add7, a019130); one is a listed known finding.',
+    'level_text': 'Proof (Coq, unbounded histories incl. raising calls, NO guard) for an executable model of HardwareSetup + '
+                  'DummyAWG/DummyDAC: after every history the routing invariant holds framed by an executable status of '
+                  'each program name per side (clean / covered / lost): for clean names every AWG holds exactly the '
+                  'registered programs that use it with every channel id / voltage transformation at the wired output, '
+                  'every DAC exactly the wired masks with the program\'s own windows, participation records exact; for '
+                  'covered names (wiring of a used name changed after registration) the copies sit exactly on the recorded '
+                  'devices, and remove_program / register_program(update) / clear_programs with all recorded devices wired '
+                  'make the name clean again; armed => held for every name that is not lost.  Post-conditions for arm, '
+                  'remove, clear and update_parameters (exactly the used generators) after any history.  Under the round-1 '
+                  'guard (no re-wiring of used names) all names stay clean (guarded theorems kept).  The plain invariant '
+                  'without framing is refuted by a 3-call witness (known finding C18-rewire-stale).  Model tied to the '
+                  'code by a step-by-step correspondence check on the real objects after every call.',
+    'level_note': 'Trusted: Coq kernel, harness (incl. the Python mirror of the status tracking used to classify failures), '
+                  'DummyAWG/DummyDAC as stand-ins for real drivers (set_volatile_parameters replaced by a recorder), '
+                  'set/dict iteration order inside register_program is an input of the model chosen to explain the '
+                  'observed outcome, Loop.get_measurement_windows as the program\'s own windows.  Two defects of the '
+                  'unchanged code were repaired in round 1 (825add7, a019130); C18-rewire-stale is a listed known '
+                  'finding (refusing to re-wire a used name would break the documented re-wire + update workflow).',
     'technique': 'Coq invariant proof over operation histories + correspondence check on HardwareSetup with dummy devices',
     'design_ref': 'DESIGN.md §5 C18',
 }
